@@ -100,7 +100,7 @@ def build(flavour="O2", quiet=True):
         hdir = os.path.join(VERIF, "harness")
         hobjs = []
         for s in sorted(os.listdir(hdir)):
-            if s.endswith(".c") and (s.startswith("wl_") or s.startswith("mvh_")):
+            if (s.endswith(".c") or s.endswith(".S")) and (s.startswith("wl_") or s.startswith("mvh_")):
                 o = os.path.join(bdir, "h_" + s[:-2] + ".o")
                 hobjs.append(o)
                 jobs.append([cc] + simflags + ["-I" + hdir, "-c", os.path.join(hdir, s), "-o", o])
